@@ -19,6 +19,8 @@ NEEDS = {
  "C07-2": ("CRLF after a chunk read with one read() and a ==2 check", "the reader running dry between the CR and LF after a chunk (segment boundary there, byte-wise delivery, or the 8192-byte buffer refill)"),
  "C08-1": ("workers batch up to 4 queued messages into a thread-local queue", "several messages already queued when a worker takes the lock, with a panic in a non-last task of the batch or tasks that must overlap"),
  "C08-2": ("recovery thread skips the restart when the handle is already taken", "the pool dropped while tasks are still queued, at least N of them panicking, with more tasks behind them"),
+ "C08-3": ("ThreadPool::drop joins workers that report is_finished() with join().unwrap()", "the pool dropped after a panicked worker has ended but before the recovery thread has replaced it (then drop panics in the caller and the task queued behind the panic never runs)"),
+ "C08-4": ("recovery thread polls with recv_timeout(100 ms) and retires when Arc::strong_count(&threads) == 1", "pool dropped while a worker is still busy, then a recovery poll timeout, and only then the busy worker's task panics (tasks queued behind it never run)"),
  "C09-1": ("CRLF after a chunk read with one read() and a ==2 check", "the upstream's data stopping exactly between the CR and LF after a chunk, or that pair straddling the 8192-byte refill"),
  "C09-2": ("read timeout set after the request is written, write timeout dropped", "an upstream that accepts and never reads, and a request body larger than the kernel socket buffers"),
  "C10-1": ("encoder boundary `length <= 0x10000` for the 16-bit form", "a payload of exactly 65536 bytes"),
